@@ -150,6 +150,14 @@ class _Closure:
         return "<closure %s>" % self.fi.qualname
 
 
+class _BytesIO:
+    """io.BytesIO(initial): a byte buffer with a read / write position. read(n) hands out buf[pos:pos+n] and advances, read()
+    the rest; write(x) appends (only at the end: the uses in this package never seek back before writing)."""
+
+    def __init__(self, buf=b"", pos=0):
+        self.buf, self.pos = buf, pos
+
+
 class _Obj:
     """An instance of a class of the package: its class and its attributes. `tuple_like` instances (NamedTuple) also unpack,
     index and compare like the tuple of their fields."""
@@ -197,6 +205,11 @@ def clone(v, _memo=None):
         return {k: clone(x, _memo) for k, x in v.items()}
     if isinstance(v, _Iter):
         return _Iter(v.items, v.pos)
+    if isinstance(v, _BytesIO):
+        _memo = {} if _memo is None else _memo
+        if id(v) not in _memo:
+            _memo[id(v)] = _BytesIO(v.buf, v.pos)
+        return _memo[id(v)]
     return v
 
 
@@ -614,6 +627,10 @@ class Evaluator:
                 if not ok:
                     return None
                 bound[n] = d
+        if a.kwarg and a.kwarg.arg not in bound:
+            bound[a.kwarg.arg] = {}  # no extra keyword arguments were passed
+        if a.vararg and a.vararg.arg not in bound:
+            bound[a.vararg.arg] = ()
         return bound
 
     # ------------------------------------------------------------------ statements
@@ -718,11 +735,24 @@ class Evaluator:
             ast.fix_missing_locations(tr)
             return self.try_(tr, fr)
         if isinstance(st, ast.With):
+            exits_ = []
             for it in st.items:
                 v = self.expr(it.context_expr, fr)
+                entered = T("enter", (v,))
+                if isinstance(v, _BytesIO) or (isinstance(v, (list, tuple)) and not (v and isinstance(v[0], str) and str(v[0]).startswith("#"))):
+                    entered = v  # a buffer is its own context manager; a scripted directory listing (os.scandir) likewise
+                elif isinstance(v, _Obj) and not v.tuple_like:
+                    r_ = self.dunder(v, "enter", [], st, fr)
+                    if r_ is not NotImplemented:
+                        entered = r_
+                        exits_.append(v)
                 if it.optional_vars is not None:
-                    self.assign(it.optional_vars, T("enter", (v,)), fr)
-            return self.block(st.body, fr)
+                    self.assign(it.optional_vars, entered, fr)
+            done_ = self.block(st.body, fr)
+            if not done_:
+                for v in reversed(exits_):
+                    self.dunder(v, "exit", [None, None, None], st, fr)  # normal completion: __exit__(None, None, None)
+            return done_
         if isinstance(st, (ast.Pass, ast.Global, ast.Nonlocal, ast.Import, ast.ImportFrom)):
             return False
         if isinstance(st, ast.FunctionDef):
@@ -1060,6 +1090,11 @@ class Evaluator:
                 if isinstance(a, _Obj) and a is not o and (a.modname, a.cls) == (o.modname, o.cls):
                     o.fields = a.fields
                     new_env[k] = o
+            elif isinstance(o, _BytesIO):
+                a = new_env.get(k)
+                if isinstance(a, _BytesIO) and a is not o:
+                    o.buf, o.pos = a.buf, a.pos
+                    new_env[k] = o
 
     def merge(self, c, a, b):
         if isinstance(a, dict) and isinstance(b, dict) and a.keys() == b.keys():
@@ -1143,6 +1178,7 @@ class Evaluator:
             fh, hd, hexits = run_handler(h, names, [g], [])
             new_exits.extend(hexits)
             results.append((g, fh, hd))
+        fell_through = []  # guards of caught raises whose handler completed normally: control left the statement there
         for ex in body_exits:
             caught = None
             if ex.kind == "raise":
@@ -1150,6 +1186,9 @@ class Evaluator:
                     if _exc_matches(ex.exc, names):
                         caught = (h, names)
                         break
+            if fell_through:
+                # exits form an ordered decision list: a later exit of the body is reached only if none of those raises happened
+                ex = Exit(tuple(ex.guard) + tuple(fell_through), ex.kind, ex.value, ex.node, ex.func, ex.exc, facts=ex.facts)
             if caught is None:
                 new_exits.append(ex)
                 continue
@@ -1157,6 +1196,10 @@ class Evaluator:
             fh, hd, hexits = run_handler(caught[0], caught[1], extra, [])
             new_exits.extend(hexits)
             results.append((tm.land(extra), fh, hd))
+            if not hd:
+                g_ = tm.lnot(tm.land(list(ex.guard[len(fr.guard):])))
+                if g_ is not True:
+                    fell_through.append(g_)
         abrupt_finally = bool(st.finalbody) and any(isinstance(n, (ast.Return, ast.Raise, ast.Break, ast.Continue)) for b in st.finalbody for n in ast.walk(b))
         if abrupt_finally:
             # `finally` runs on every way out of the statement; when it completes abruptly itself (return / raise / break /
@@ -1673,6 +1716,27 @@ class Evaluator:
                     work.append((r[1].name, r[2]))
         return out_m, out_a
 
+    def _class_level_value(self, assigns, attr):
+        """The value a class body assigns to `attr` (NAME = v, NAME: T = v, or A, B, C = x, y, z); NotImplemented if none."""
+        for mn, st in assigns:
+            f0 = Frame(self, mn, None, Summary(None), 0)
+            if isinstance(st, ast.Assign):
+                for t in st.targets:
+                    if isinstance(t, ast.Name) and t.id == attr:
+                        return self.expr(st.value, f0)
+                    if isinstance(t, (ast.Tuple, ast.List)):
+                        for i, el in enumerate(t.elts):
+                            if isinstance(el, ast.Name) and el.id == attr:
+                                if isinstance(st.value, (ast.Tuple, ast.List)) and len(st.value.elts) == len(t.elts):
+                                    return self.expr(st.value.elts[i], f0)
+                                v = self.expr(st.value, f0)
+                                seq = _concrete_iter(v) if not isinstance(v, (str, bytes, dict)) else None
+                                if seq is not None and len(seq) == len(t.elts):
+                                    return seq[i]
+            elif isinstance(st, ast.AnnAssign) and isinstance(st.target, ast.Name) and st.target.id == attr and st.value is not None:
+                return self.expr(st.value, f0)
+        return NotImplemented
+
     def getattr_value(self, base, attr):
         if isinstance(base, _Obj):
             if attr in base.fields:
@@ -1683,10 +1747,9 @@ class Evaluator:
                 if "property" in decos or "functools.cached_property" in decos or "cached_property" in decos:
                     return self.call_fn(meths[attr], [base], {}, meths[attr].node, self._cur if getattr(self, "_cur", None) is not None else Frame(self, base.modname, None, Summary(None), 0))
                 return T("boundmethod", (base, attr))
-            for mn, st in assigns:
-                names = [t.id for t in st.targets if isinstance(t, ast.Name)] if isinstance(st, ast.Assign) else ([st.target.id] if isinstance(st.target, ast.Name) else [])
-                if attr in names and st.value is not None:
-                    return self.expr(st.value, Frame(self, mn, None, Summary(None), 0))
+            cv = self._class_level_value(assigns, attr)
+            if cv is not NotImplemented:
+                return cv
             if base.tuple_like and attr == "_fields":
                 return tuple(base.fields.keys())
             return T("raise", ("AttributeError",))
@@ -2154,6 +2217,8 @@ class Evaluator:
                 else:
                     out.append(r)
             if ok:
+                if gi == 0:
+                    self._rebind_objects(fr.env, sub.env)  # what the elements did to objects of the enclosing scope stays done
                 if kind == "dict" and (last or all(isinstance(x, tuple) and len(x) == 2 for x in out)):
                     d = {}
                     for k, v in out:
@@ -2330,8 +2395,16 @@ class Evaluator:
         if isinstance(fv, T) and fv.op == "ext" and isinstance(fv.args[0], str):
             return self.extern(fv.args[0], pos, kw, e, fr)  # a library function held in a variable or a table
         if isinstance(fv, T) and fv.op == "ite":
-            return tm.ite(fv.args[0], self.call_value(_unfz(fv.args[1]), pos, kw, e, fr),
-                          self.call_value(_unfz(fv.args[2]), pos, kw, e, fr))
+            # a callable chosen by a condition (a strategy): each alternative is called under its own condition
+            c_ = fv.args[0]
+            f1, f2 = fr.fork(c_), fr.fork(tm.lnot(c_))
+            f1.facts.append(c_)
+            f2.facts.append(tm.lnot(c_))
+            a_ = fv.args[1] if isinstance(fv.args[1], (T, _Closure, _Obj)) else _unfz(fv.args[1])
+            b_ = fv.args[2] if isinstance(fv.args[2], (T, _Closure, _Obj)) else _unfz(fv.args[2])
+            r1 = self.call_value(a_, pos, kw, e, f1)
+            r2 = self.call_value(b_, pos, kw, e, f2)
+            return r1 if tm.veq(r1, r2) else tm.ite(c_, r1, r2)
         fr.summary.calls.append(("value:" + tm.show(fv), pos, kw, e, tuple(fr.guard), tuple(fr.facts), dict(fr.iters)))
         r = tm.app("call", [fv] + pos, tuple(sorted(kw.items())))
         self._opaque_log.append(r)
@@ -2464,6 +2537,7 @@ class Evaluator:
             self._opaque_log.append(r)
             return r
         sub = self.run(fi, bound, depth=fr.depth if recursive else fr.depth + 1, closure_env=closure_env)
+        self._copy_out(fi, sub, e, fr, skip_self)
         fr.summary.loops.extend(sub.loops)
         fr.summary.hazards.extend((h[0], h[1], h[2], tuple(fr.guard) + tuple(h[3]), tuple(fr.facts) + tuple(h[4]), h[5],
                                    _merge_iters(fr.iters, h[6] if len(h) > 6 else {})) for h in sub.hazards)
@@ -2474,13 +2548,17 @@ class Evaluator:
         # (conditional) return precedes it in the callee
         seen_return = False
         nret = len(sub.returns())
+        not_returned = []  # a raise that follows conditional returns in the callee happens only if none of them was taken
         for ex in sub.exits:
             if ex.kind == "return":
                 nret -= 1
                 if nret > 0 or tm.land(list(ex.guard)) is not True:
                     seen_return = True
+                rg = tm.land(list(ex.guard))
+                if rg is not True and rg is not False:
+                    not_returned.append(tm.lnot(rg))
                 continue
-            fr.summary.exits.append(Exit(tuple(fr.guard) + ex.guard, "raise", ex.value, ex.node, ex.func, ex.exc,
+            fr.summary.exits.append(Exit(tuple(fr.guard) + tuple(not_returned) + ex.guard, "raise", ex.value, ex.node, ex.func, ex.exc,
                                          facts=tuple(fr.facts) + ex.facts))
             g = tm.land(list(ex.guard))
             if g is not True and not seen_return:
@@ -2493,8 +2571,75 @@ class Evaluator:
                     fr.facts.append(f)
         return self.under_facts(sub.value(), fr)
 
+    def _copy_out(self, fi, sub, e, fr, skip_self=False):
+        """An out-parameter: the callee appends to a buffer / list the caller handed it (`out += x` on a parameter annotated
+        bytearray / list, `out.extend(x)`, `out.append(x)`). Buffers are modelled as values, so the in-place change is carried
+        back by hand: after the call the caller's variable holds what the callee's parameter held at its end. Only for callees
+        that end by falling off their last statement (one final state) and for arguments that are plain names."""
+        cache = self.__dict__.setdefault("_outparams", {})
+        if fi.qualname not in cache:
+            params = [a.arg for a in fi.node.args.posonlyargs + fi.node.args.args + fi.node.args.kwonlyargs]
+            ann = {a.arg: (ast.unparse(a.annotation) if a.annotation is not None else "") for a in fi.node.args.posonlyargs + fi.node.args.args + fi.node.args.kwonlyargs}
+            muts = set()
+            body = fi.node.body
+            early = [n for st in body[:-1] for n in ast.walk(st) if isinstance(n, ast.Return)] + \
+                    [n for n in ast.walk(body[-1]) if isinstance(n, ast.Return) and n is not body[-1]] if body else []
+            rebound = {t.id for n in ast.walk(fi.node) if isinstance(n, ast.Assign) for t in n.targets if isinstance(t, ast.Name)}
+            if not early:
+                for n in ast.walk(fi.node):
+                    if isinstance(n, ast.AugAssign) and isinstance(n.target, ast.Name) and n.target.id in params and isinstance(n.op, ast.Add) and \
+                            any(k in ann.get(n.target.id, "") for k in ("bytearray", "list", "List", "deque", "MutableSequence")):
+                        muts.add(n.target.id)
+                    if isinstance(n, ast.Call) and isinstance(n.func, ast.Attribute) and isinstance(n.func.value, ast.Name) and n.func.value.id in params and \
+                            n.func.attr in ("extend", "append", "insert", "update", "add", "setdefault", "appendleft", "extendleft"):
+                        muts.add(n.func.value.id)
+            cache[fi.qualname] = [p_ for p_ in params if p_ in muts and p_ not in rebound]
+        outs = cache[fi.qualname]
+        if not outs or not isinstance(e, ast.Call) or not isinstance(getattr(sub, "env", None), dict):
+            return
+        params = [a.arg for a in fi.node.args.posonlyargs + fi.node.args.args]
+        if skip_self or (fi.cls and params and params[0] in ("self", "cls") and isinstance(e.func, ast.Attribute)):
+            params = params[1:]
+        argnode = dict(zip(params, e.args))
+        argnode.update({k.arg: k.value for k in e.keywords if k.arg})
+        for p_ in outs:
+            nd = argnode.get(p_)
+            if isinstance(nd, ast.Name) and nd.id in fr.env and p_ in sub.env:
+                cur, new = fr.env[nd.id], sub.env[p_]
+                if isinstance(cur, (list, dict, _Obj, _BytesIO)) and cur is new:
+                    continue  # already shared by reference
+                if tm.tyof(cur) in (tm.BYTES, tm.LIST, tm.ANY) or isinstance(cur, (bytes, list)):
+                    fr.env[nd.id] = new
+
     # ---- methods on values
     def method(self, recv, meth, pos, kw, e, fr):
+        if isinstance(recv, _BytesIO):
+            if meth == "read" and len(pos) <= 1 and not kw:
+                n_ = pos[0] if pos else None
+                if n_ is None or n_ == -1:
+                    out = tm.slc(recv.buf, recv.pos, None) if recv.pos != 0 else recv.buf
+                    recv.pos = tm.length(recv.buf)
+                    return out
+                end = tm.add([recv.pos, n_])
+                out = tm.slc(recv.buf, recv.pos, end)
+                ln = tm.blen(recv.buf)
+                # a read past the end returns what is there: the position never exceeds the length
+                recv.pos = end if not isinstance(ln, int) or not isinstance(end, int) else min(end, ln)
+                return out
+            if meth == "write" and len(pos) == 1:
+                recv.buf = tm.cat([recv.buf, pos[0]])
+                recv.pos = tm.length(recv.buf)
+                return tm.length(pos[0])
+            if meth in ("getvalue", "getbuffer") and not pos:
+                return recv.buf
+            if meth == "tell" and not pos:
+                return recv.pos
+            if meth == "seek" and pos and pos[0] == 0 and (len(pos) == 1 or pos[1] == 0):
+                recv.pos = 0
+                return 0
+            if meth == "close":
+                return None
+            raise AnalysisError("io.BytesIO.%s not modelled" % meth)
         if isinstance(recv, _Obj):
             meths, _assigns = self.class_members(recv.modname, recv.cls)
             if meth in meths:
@@ -2643,6 +2788,10 @@ class Evaluator:
             delete = pos[1] if len(pos) > 1 else kw.get("delete", b"")
             if isinstance(recv, (bytes, bytearray)) and (table is None or isinstance(table, bytes)) and isinstance(delete, bytes):
                 return bytes(recv).translate(table, delete)
+            n_ = tm.blen(recv) if isinstance(recv, T) else None
+            if isinstance(table, bytes) and len(table) == 256 and delete == b"" and isinstance(n_, int) and not isinstance(n_, bool) and n_ <= 512:
+                # a byte-for-byte translation of a string of known length: byte i of the result is TABLE[x[i]]
+                return tm.cat([tm.i2b(tm.idx(table, tm.idx(recv, i)), 1, "big") for i in range(n_)])
             return T("m:translate", (tm._fz(recv), table, delete), tm.BYTES)
         if meth in ("lower", "upper", "strip", "isupper", "islower", "lstrip", "rstrip", "split", "splitlines", "zfill",
                     "index", "count", "find", "isdigit", "title", "replace", "partition", "rsplit", "rpartition", "ljust", "rjust",
@@ -2705,8 +2854,24 @@ class Evaluator:
         return r
 
     # ---- externs (builtins / stdlib), by name
+    _EXT_SIGS = {"hashlib.pbkdf2_hmac": ("hash_name", "password", "salt", "iterations", "dklen"), "hashlib.new": ("name", "data"),
+                 "hmac.new": ("key", "msg", "digestmod"), "int.from_bytes": ("bytes", "byteorder"), "unicodedata.normalize": ("form", "unistr"),
+                 "struct.unpack": ("format", "buffer"), "struct.unpack_from": ("format", "buffer", "offset"), "os.path.join": (), "divmod": ("x", "y"),
+                 "pow": ("base", "exp", "mod"), "round": ("number", "ndigits"), "functools.reduce": ("function", "iterable", "initial")}
+
     def extern(self, name, pos, kw, e, fr):
         n = name[9:] if name.startswith("builtins.") else name
+        sig = self._EXT_SIGS.get(n)
+        if sig and kw and "**" not in kw:
+            # keyword arguments of a library function in their positional places (f(**params), f(a, salt=s, ...))
+            pos, kw = list(pos), dict(kw)
+            while len(pos) < len(sig) and sig[len(pos)] in kw:
+                pos.append(kw.pop(sig[len(pos)]))
+            if n == "hmac.new" and "digestmod" in kw and len(pos) == 2:
+                pass  # hmac.new(key, msg, digestmod=...) is read by name below
+        if n.split(".")[0] in ("str", "bytes", "bytearray", "dict", "list") and n.count(".") == 1 and pos and n not in ("bytes.fromhex", "dict.fromkeys", "bytes.maketrans", "str.maketrans", "bytearray.fromhex"):
+            # an unbound method of a builtin type used as a function: str.strip(s) is s.strip()
+            return self.method(pos[0], n.split(".")[1], list(pos[1:]), kw, e, fr)
         if len(pos) == 1 and not kw and isinstance(pos[0], _Obj) and not pos[0].tuple_like:
             # bytes(x), len(x), int(x), ... on an object of a package class: its special method
             dn = {"bytes": "bytes", "len": "len", "int": "int", "str": "str", "repr": "repr", "hash": "hash", "abs": "abs", "float": "float", "index": "index"}.get(n)
@@ -2840,7 +3005,9 @@ class Evaluator:
         if n == "iter" and len(pos) == 1:
             if isinstance(a0, (_Iter, _CallStream)):
                 return a0
-            seq0 = _concrete_iter(a0) if not isinstance(a0, (dict, str, bytes)) else None
+            seq0 = _concrete_iter(a0) if not isinstance(a0, (dict, str, bytes)) else (list(a0) if isinstance(a0, bytes) else None)
+            if seq0 is None and isinstance(a0, T):
+                seq0 = self._bound_length_iter(a0)  # the bytes of an input of exactly n bytes
             if seq0 is not None:
                 return _Iter(seq0)
         if n == "next" and pos and isinstance(a0, _Iter):
@@ -3039,6 +3206,10 @@ class Evaluator:
                     if "default" in kw:
                         return kw["default"]
             return T(n, tuple(sorted((tm._fz(p) for p in pos), key=tm.sortkey)), tm.INT)
+        if n in ("io.BytesIO", "BytesIO") and len(pos) <= 1 and not kw:
+            return _BytesIO(pos[0] if pos else b"", 0)
+        if n == "bytes" and len(pos) == 1 and isinstance(a0, _BytesIO):
+            return a0.buf
         if n == "sum" and isinstance(a0, _Iter):
             a0 = a0.rest()
         if n == "sum" and isinstance(a0, (list, tuple)) and any(isinstance(x, _Obj) for x in list(a0) + list(pos[1:2])):
